@@ -152,6 +152,17 @@ let () =
        | C6LeafOk (d, w) -> "ok " ^ hexbytes d ^ " " ^ c6_b01 w ^ " " ^ c6_cfm_str cfm
        | C6LeafError -> "error " ^ c6_cfm_str cfm)
     | _ -> "?args");
+  (* c6decseq <state 12> (kind num gen data)* -> one result per leaf, separated by ';': the leaves in the order qpdf meets them,
+     through the per-object key cache, starting from an empty cache *)
+  register "c6decseq" (fun args ->
+    let (sl, rest) = c6_take 12 args in
+    let st = c6_state_of sl in
+    let rec leaves = function
+      | kind :: num :: gen :: data :: t -> c6_leaf kind num gen "-" data :: leaves t
+      | [] -> []
+      | _ -> failwith "decseq" in
+    String.concat ";" (List.map (function C6LeafOk (d, w) -> "ok " ^ hexbytes d ^ " " ^ c6_b01 w | C6LeafError -> "error")
+                         (c06_decrypt_seq st None (leaves rest))));
   (* c6perms R P(unsigned) -> "<spec 8 bits>" *)
   register "c6perms" (fun args -> match args with
     | [r; p] -> String.concat "" (List.map c6_b01 (c06_iso_perms (c6_n r) (c6_n p)))
